@@ -72,13 +72,16 @@ def h_write(ctx, vi, kind, fault_name, nbytes, force_unlock, ignore_feedback):
             image[l] = ctx.fresh("m%d" % l, 0, 255)
     last = 254
     if fault_name == "short-bank":
-        last = ctx.fresh("last", 2, first + n - 1)
+        last = ctx.fresh("last", 2, max(2, first + n - 2))
     image[0] = last
     lockmode = ctx.fresh_choice("lockmode", 3) if has_lock else 0
     if has_lock:
         image[2] = [0xFF, 0x55, None][lockmode]
         if image[2] is None:
             image[2] = ctx.fresh("lockbyte", 0, 255)
+        if fault_name == "lock-stuck":
+            # the fault is "stays locked": a byte stuck at the unlock value is another story
+            ctx.assume(E.ne(image[2], 0x55))
     tmap = dict(zip(locs, types))
 
     def writable(loc):
@@ -138,8 +141,6 @@ def h_write(ctx, vi, kind, fault_name, nbytes, force_unlock, ignore_feedback):
         faulty = False
     if fault_name == "odd-unlock" and not lockable:
         faulty = False
-    if fault_name == "lock-stuck" and lockable and has_lock and lockmode == 1:
-        faulty = False          # stuck at 'unlocked': writes are accepted (the re-lock check is below)
     if fault_name == "odd-unlock" and lockable and lockmode == 2:
         # an arbitrary initial lock byte may already be this unit's unlock value - but the
         # sequence overwrites it with 0x55 first, so the unit is locked when written
@@ -232,7 +233,8 @@ def cases(tier):
                 for fu, ig in ((False, False), (True, False), (False, True)):
                     if tier == "quick" and (fu or ig) and fault_name not in ("none", "no", "lock-stuck"):
                         continue
-                    if width > 8 and tier == "quick" and fault_name not in ("none", "no", "dtr0-stuck"):
+                    if width > 8 and tier == "quick" and (fault_name not in ("none", "no", "dtr0-stuck")
+                                                          or fu or ig or kind == "device"):
                         continue
                     cs.append(Case("write-%s-%s-%s-%s%s%s" % (row[1], row[2], kind, fault_name,
                                                               "-force" if fu else "", "-nofb" if ig else ""),
